@@ -381,40 +381,36 @@ Proof.
     + replace (b - s) with (S (b - S s)) by lia. cbn [nth]. lia.
 Qed.
 
-Section SparseTables.
-  Variable V : nat -> list nat.
-  Hypothesis HV : forall c, length (V c) = tri c.
+Lemma sparse_one (V : nat -> list nat) c a b : (forall c, length (V c) = tri c) ->
+  sparse_get (repeat c (tri c)) (seq 0 (tri c)) (V c) a b =
+  if (c =? a) && (b <? tri c) then nth b (V c) 0 else 0.
+Proof.
+  intros HV. rewrite <- (HV c). rewrite sparse_get_block. cbn [Nat.leb Nat.add]. rewrite Nat.sub_0_r, andb_true_r.
+  reflexivity.
+Qed.
 
-  Lemma sparse_one c a b :
-    sparse_get (repeat c (tri c)) (seq 0 (tri c)) (V c) a b =
-    if (c =? a) && (b <? tri c) then nth b (V c) 0 else 0.
-  Proof.
-    rewrite <- (HV c). rewrite sparse_get_block. cbn [Nat.leb Nat.add]. rewrite Nat.sub_0_r, andb_true_r.
-    reflexivity.
-  Qed.
+Lemma sparse_notin (V : nat -> list nat) U a b : (forall c, length (V c) = tri c) -> ~ In a U ->
+  sparse_get (concat (map (fun c => repeat c (tri c)) U)) (concat (map (fun c => seq 0 (tri c)) U))
+             (concat (map V U)) a b = 0.
+Proof.
+  intros HV. induction U as [|c U IH]; intros Hn; [reflexivity|]. cbn [map concat].
+  rewrite sparse_get_app by (rewrite ?repeat_length, ?seq_length, ?HV; reflexivity).
+  rewrite sparse_one, IH by (try exact HV; intros C; apply Hn; right; exact C).
+  destruct (Nat.eqb_spec c a) as [E|E]; [exfalso; apply Hn; left; exact E|reflexivity].
+Qed.
 
-  Lemma sparse_notin U a b : ~ In a U ->
-    sparse_get (concat (map (fun c => repeat c (tri c)) U)) (concat (map (fun c => seq 0 (tri c)) U))
-               (concat (map V U)) a b = 0.
-  Proof.
-    induction U as [|c U IH]; intros Hn; [reflexivity|]. cbn [map concat].
-    rewrite sparse_get_app by (rewrite ?repeat_length, ?seq_length, ?HV; reflexivity).
-    rewrite sparse_one, IH by (intros C; apply Hn; right; exact C).
-    destruct (Nat.eqb_spec c a) as [E|E]; [exfalso; apply Hn; left; exact E|reflexivity].
-  Qed.
-
-  Lemma sparse_lookup U a b : NoDup U -> In a U -> b < tri a ->
-    sparse_get (concat (map (fun c => repeat c (tri c)) U)) (concat (map (fun c => seq 0 (tri c)) U))
-               (concat (map V U)) a b = nth b (V a) 0.
-  Proof.
-    intros ND. induction ND as [|c U Hc ND IH]; intros Hin Hb; [contradiction|]. cbn [map concat].
-    rewrite sparse_get_app by (rewrite ?repeat_length, ?seq_length, ?HV; reflexivity).
-    rewrite sparse_one. destruct (Nat.eqb_spec c a) as [E|E].
-    - subst c. rewrite sparse_notin by exact Hc.
-      destruct (Nat.ltb_spec b (tri a)); [cbn [andb]; lia|lia].
-    - cbn [andb]. destruct Hin as [Hin|Hin]; [congruence|]. rewrite IH by assumption. reflexivity.
-  Qed.
-End SparseTables.
+Lemma sparse_lookup (V : nat -> list nat) U a b : (forall c, length (V c) = tri c) ->
+  NoDup U -> In a U -> b < tri a ->
+  sparse_get (concat (map (fun c => repeat c (tri c)) U)) (concat (map (fun c => seq 0 (tri c)) U))
+             (concat (map V U)) a b = nth b (V a) 0.
+Proof.
+  intros HV ND. induction ND as [|c U Hc ND IH]; intros Hin Hb; [contradiction|]. cbn [map concat].
+  rewrite sparse_get_app by (rewrite ?repeat_length, ?seq_length, ?HV; reflexivity).
+  rewrite sparse_one by exact HV. destruct (Nat.eqb_spec c a) as [E|E].
+  - subst c. rewrite sparse_notin by assumption.
+    destruct (Nat.ltb_spec b (tri a)); [cbn [andb]; lia|lia].
+  - cbn [andb]. destruct Hin as [Hin|Hin]; [congruence|]. rewrite IH by assumption. reflexivity.
+Qed.
 
 Lemma map2_map_r {A B C} (f : A -> B -> C) (g : A -> B) l : map2 f l (map g l) = map (fun c => f c (g c)) l.
 Proof. induction l as [|a l IH]; [reflexivity|]. cbn [map map2]. rewrite IH. reflexivity. Qed.
